@@ -11,12 +11,12 @@ HERE = os.path.dirname(os.path.dirname(os.path.abspath(__file__)))
 SEEDED = os.path.join(HERE, "seeded")
 
 
-def imp(src, pid):
+def imp(src, pid, offset=0):
     for n in sorted(os.listdir(src)):
         d = os.path.join(src, n)
         if not (os.path.isdir(d) and os.path.exists(os.path.join(d, "patch.diff"))):
             continue
-        dst = os.path.join(SEEDED, pid, n)
+        dst = os.path.join(SEEDED, pid, str(int(n) + offset) if n.isdigit() else n)
         os.makedirs(dst, exist_ok=True)
         for f in ("patch.diff", "demo.py", "meta.json"):
             if os.path.exists(os.path.join(d, f)):
@@ -81,7 +81,7 @@ def run(pid, only, tests=False, checks=None):
 
 if __name__ == "__main__":
     if sys.argv[1] == "import":
-        imp(sys.argv[2], sys.argv[3])
+        imp(sys.argv[2], sys.argv[3], int(sys.argv[4]) if len(sys.argv) > 4 else 0)
     else:
         args = sys.argv[2:]
         tests = "--tests" in args
